@@ -152,7 +152,12 @@ theorem generic_fold_requires (ctx : Ctx) (st st' : St) (n n' : Node) (version :
               split at h
               · simp at h
               · simp at h
-              · rename_i c hor
+              · rename_i c hor0
+                have hor : lookupA ctx.oracle (oracleKey st2 n version) = some (.single c) := by
+                  unfold oracleAnswer at hor0
+                  split at hor0
+                  · simp at hor0
+                  · exact hor0
                 exact ⟨hins, emitFold_requires ctx st2 st' n n' c r h, hsubs, by simpa using hconst, c, st2, hor⟩
 
 /-! ### overridable initializer-inputs are never read as constants (after fix 3131a7c) -/
@@ -175,6 +180,29 @@ theorem initializer_input_never_constant (st : St) (x : Name) (hg : st.isGraphIn
     cases st.getSym (some x) with
     | none => rfl
     | some sv => cases sv <;> rfl
+
+/-- **Node-level shape inference never sees the default of an overridable input**
+(`_do_inference.get_constant_value` = `_get_numpy_value(x, size_limit=20)`): the constant data handed
+to ONNX shape inference for a node never contains a graph input, whatever default value that input
+carries.  (A static shape derived from a default would be wrong as soon as the caller overrides it.) -/
+theorem inference_never_reads_graph_input_default (st : St) (n : Node) (x : Name) (c : CInfo)
+    (h : (x, c) ∈ inferenceData st n) : st.isGraphInput x = false := by
+  simp only [inferenceData, List.mem_filterMap] at h
+  obtain ⟨y, _, hy⟩ := h
+  cases hg : st.isGraphInput x with
+  | false => rfl
+  | true =>
+    exfalso
+    cases hc : inferenceConstant st y with
+    | none => simp [hc] at hy
+    | some c' =>
+      simp only [hc, Option.map_some, Option.some.injEq, Prod.mk.injEq] at hy
+      obtain ⟨hyx, _⟩ := hy
+      subst hyx
+      have := (initializer_input_never_constant st y hg none (some 20)).1
+      simp only [inferenceConstant] at hc
+      rw [this] at hc
+      exact absurd hc (by simp)
 
 /-- `SplitToSequence` folding is only attempted from opset 18 on (commit 37e2648), so
 `Split(num_outputs=…)` — an attribute that exists from opset 18 — is never emitted below it. -/
